@@ -198,9 +198,11 @@ type hxProbe struct {
 	// Interp: nil when all methods of the operand are interpreted; else method -> true (interpreted) /
 	// false (promoted from an embedded compiled type); absent = not in the method set
 	Interp map[string]bool
+	Cell   map[string]any // shadow stream: the cell of the matrix
 }
 
 type c05HostX struct {
+	child  bool // run yaegi in a child process
 	src    string
 	probes []*hxProbe
 	kind   string
@@ -744,4 +746,131 @@ func genHostXMisc(tbl map[string][]c05MapEntry) *c05HostX {
 	hb.probe(fc, fv, fv, "func() string { fs := flag.NewFlagSet(\"x\", flag.ContinueOnError); v := &FV{\"a\"}; fs.Var(v, \"v\", \"u\"); err := fs.Parse([]string{\"-v\", \"zz\"}); return fmt.Sprint(v.S, err, fs.Lookup(\"v\").Value.String(), fs.Lookup(\"v\").DefValue) }()", "flag.Var *FV", false)
 	hb.probe(fc, fv, fv, "func() string { fs := flag.NewFlagSet(\"x\", flag.ContinueOnError); v := &FW{FV{\"a\"}}; fs.Var(v, \"v\", \"u\"); err := fs.Parse([]string{\"-v=q\"}); return fmt.Sprint(v.S, err, fs.Lookup(\"v\").Value.String()) }()", "flag.Var *FW", false)
 	return hb.finish("pairs-misc")
+}
+
+// ---------------------------------------------------------------- shadowed promoted compiled methods
+//
+// An interpreted struct embeds a compiled NON-interface type (time.Time by value, *bytes.Buffer,
+// *strings.Builder, *strings.Reader) and declares an interpreted method that SHADOWS one promoted
+// from it; the value is handed, by value or by pointer, to compiled code expecting the interface
+// that method belongs to.  Dimensions: number and position of the fields of the struct (yaegi marks
+// the embedded field Anonymous in the reflect type only when it is the single field, so the reflect
+// type of a single-field struct really has the promoted compiled methods) x base x shadowed method
+// x receiver kind x operand kind x consumer.  Compiled Go calls the interpreted (shallowest) method.
+// Compared with compiled Go only (no Coq case): the interpreted method leaves its identity in a trace.
+
+type hxShadowBase struct {
+	Type, Field, Init string
+	Methods           []string // methods of the base that a probed interface contains
+	NameClash         bool     // the base has a method Format(string) string: by name a fmt.Formatter for yaegi
+}
+
+var hxShadowBases = []hxShadowBase{
+	{"time.Time", "Time", "time.Date(2021, 3, 4, 0, 0, 0, 0, time.UTC)", []string{"String", "MarshalJSON"}, true},
+	{"*bytes.Buffer", "Buffer", "bytes.NewBufferString(\"hello\")", []string{"String", "Write", "Read"}, false},
+	{"*strings.Builder", "Builder", "&strings.Builder{}", []string{"String", "Write"}, false},
+	{"*strings.Reader", "Reader", "strings.NewReader(\"hello\")", []string{"Read"}, false},
+}
+
+func genHostXShadow(r *rng, tbl map[string][]c05MapEntry) []*c05HostX {
+	var progs []*c05HostX
+	k := 0
+	for _, base := range hxShadowBases {
+		for layout := 0; layout < 3; layout++ { // 0: single field, 1: base then extra, 2: extra then base
+			// one program per (base, layout), run in a child process: handing a raw interpreted struct to
+			// compiled code can kill the host with a fatal run-time error
+			hb := &hxBuilder{tbl: tbl}
+			hb.b.WriteString("func showStringer(s fmt.Stringer) string { return s.String() }\n\n")
+			for _, m := range base.Methods {
+				for _, ptrRecv := range []bool{false, true} {
+					k++
+					tn := fmt.Sprintf("SH%d", k)
+					switch layout {
+					case 0:
+						fmt.Fprintf(&hb.b, "type %s struct{ %s }\n\n", tn, base.Type)
+					case 1:
+						fmt.Fprintf(&hb.b, "type %s struct {\n\t%s\n\tN int\n}\n\n", tn, base.Type)
+					default:
+						fmt.Fprintf(&hb.b, "type %s struct {\n\tN int\n\t%s\n}\n\n", tn, base.Type)
+					}
+					rc := "(r " + tn + ")"
+					if ptrRecv {
+						rc = "(r *" + tn + ")"
+					}
+					id := tn + "." + m + ":;"
+					switch m {
+					case "String":
+						fmt.Fprintf(&hb.b, "func %s String() string { trace += \"%s\"; return \"<%s>\" }\n\n", rc, id, tn)
+					case "MarshalJSON":
+						fmt.Fprintf(&hb.b, "func %s MarshalJSON() ([]byte, error) { trace += \"%s\"; return []byte(\"\\\"<%s>\\\"\"), nil }\n\n", rc, id, tn)
+					case "Write":
+						fmt.Fprintf(&hb.b, "func %s Write(p []byte) (int, error) { trace += \"%s\"; return r.%s.Write(bytes.ToUpper(p)) }\n\n", rc, id, base.Field)
+					case "Read":
+						fmt.Fprintf(&hb.b, "func %s Read(p []byte) (int, error) { trace += \"%s\"; n, err := r.%s.Read(p); copy(p, bytes.ToUpper(p[:n])); return n, err }\n\n", rc, id, base.Field)
+					}
+					lit := tn + "{" + base.Field + ": " + base.Init + "}"
+					for _, ptrOp := range []bool{false, true} {
+						if ptrRecv && !ptrOp {
+							continue // the shadowing method is not in the method set of the value
+						}
+						op := lit
+						if ptrOp {
+							op = "&" + lit
+						}
+						cell := map[string]any{"base": base.Type, "layout": layout, "method": m, "ptrRecv": ptrRecv, "ptrOperand": ptrOp}
+						add := func(form, expr string) {
+							c := hxConsumer{Name: "shadow." + form, Key: "", Static: []string{m}, Probes: []hxP{{m, []string{m}}}}
+							hb.probe(c, []string{m}, []string{m}, "func() string { trace = \"\"; x := "+op+"; _ = x; "+expr+" }()", fmt.Sprintf("shadow %s %v", form, cell), false)
+							p := hb.probes[len(hb.probes)-1]
+							p.NoCoq = true
+							p.Region = hxShadowRegion(base, layout, m, ptrRecv, ptrOp, form)
+							p.Cell = map[string]any{"form": form}
+							for kk, vv := range cell {
+								p.Cell[kk] = vv
+							}
+						}
+						switch m {
+						case "String":
+							add("iface-var", "var s fmt.Stringer = x; r := s.String(); return trace + r")
+							add("iface-param", "r := showStringer(x); return trace + r")
+							add("fmt.Sprint", "r := fmt.Sprint(x); return trace + r")
+							add("fmt.Sprintf-s", "r := fmt.Sprintf(\"%s\", x); return trace + r")
+						case "MarshalJSON":
+							add("json.Marshal", "b, err := json.Marshal(x); return trace + string(b) + fmt.Sprint(err)")
+						case "Write":
+							add("bufio.NewWriter", "bw := bufio.NewWriter(x); bw.Write([]byte(\"def\")); bw.Flush(); return trace + x."+base.Field+".String()")
+							add("iface-var", "var w io.Writer = x; w.Write([]byte(\"abc\")); return trace + x."+base.Field+".String()")
+							add("io.Copy.dst", "n, err := io.Copy(x, io.LimitReader(strings.NewReader(\"abc\"), 9)); return trace + fmt.Sprint(n, err) + x."+base.Field+".String()")
+						case "Read":
+							add("io.ReadAll", "b, err := io.ReadAll(x); return trace + string(b) + fmt.Sprint(err)")
+							add("iface-var", "var rd io.Reader = x; p := make([]byte, 8); n, err := rd.Read(p); return trace + string(p[:n]) + fmt.Sprint(err)")
+							add("bufio.NewReader", "br := bufio.NewReader(x); l, err := br.ReadString('l'); return trace + l + fmt.Sprint(err)")
+						}
+					}
+				}
+			}
+			hx := hb.finishWith("shadow", "\t\"time\"\n")
+			hx.src = strings.Replace(hx.src, "\ttrace string\n", "\ttrace string\n\t_ = time.Now\n", 1)
+			hx.child = true
+			progs = append(progs, hx)
+		}
+	}
+	return progs
+}
+
+// hxShadowRegion: the cells that already fail on the unchanged tree, by the defect they belong to.
+func hxShadowRegion(base hxShadowBase, layout int, m string, ptrRecv, ptrOp bool, form string) string {
+	if base.NameClash && strings.HasPrefix(form, "fmt.") {
+		// time.Time has Format(layout string) string: implements() compares names only, the operand is taken
+		// for a fmt.Formatter and building the wrapper panics in reflect.Set
+		return "host-name-clash"
+	}
+	composedExtra := base.Type == "*bytes.Buffer" || base.Type == "*strings.Reader"
+	if layout == 1 && !ptrOp && (m == "Read" || m == "Write") && composedExtra {
+		// getWrapper chooses the composed wrapper (the promoted WriteTo / ReadFrom is in methods()), but the
+		// promoted compiled method is not found on a non-pointer operand whose embedded field comes first
+		// among several fields: "method not found: WriteTo / ReadFrom"
+		return "host-composed-promoted-value"
+	}
+	return ""
 }
